@@ -312,6 +312,44 @@ def probe_region(reg, dz, adiabatic, T0, h_gap, Tp=None):
     return y0, A, (nc, nb, ng)
 
 
+def probe_operator(reg, dz, T0, Tp=None):
+    """(y0, A, dims) for the explicit coolant update operators of a pin bundle on their own
+    (_calc_coolant_int_temp, _calc_coolant_byp_temp): the previous-level duct-wall temperatures are independent
+    inputs here, not eliminated through the quasi-steady wall solution as in probe_region.  Inputs: interior coolant,
+    bypass coolant, one temperature per wall cell of every duct (written to both surfaces and the mid-wall)."""
+    nc = reg.temp['coolant_int'].size
+    nb = reg.temp['coolant_byp'].size if reg.n_bypass > 0 else 0
+    nd_, ndc = reg.temp['duct_mw'].shape
+    tp = T0 if Tp is None else Tp
+    if Tp is not None:
+        reg._update_coolant_int_params(tp, use_mat_tracker=False) if _has_kw(reg) else \
+            reg._update_coolant_int_params(tp)
+        if reg.n_bypass > 0:
+            reg._update_coolant_byp_params([tp] * reg.n_bypass)
+            reg._update_coolant(tp)
+    flowing = reg.n_bypass > 0 and float(np.sum(reg.byp_flow_rate)) > 0
+    pin = Pin([reg.coolant, reg.duct], tp)
+    try:
+        def U(x):
+            reg.temp['coolant_int'][:] = x[:nc]
+            if nb:
+                reg.temp['coolant_byp'][:] = x[nc:nc + nb].reshape(reg.temp['coolant_byp'].shape)
+            w = x[nc + nb:].reshape(nd_, ndc)
+            reg.temp['duct_mw'][:] = w
+            reg.temp['duct_surf'][:, 0, :] = w
+            reg.temp['duct_surf'][:, 1, :] = w
+            out = [reg.temp['coolant_int'] + reg._calc_coolant_int_temp(dz, None, None)]
+            if nb:
+                step = reg._calc_coolant_byp_temp(dz) if flowing else reg._calc_coolant_byp_temp_stagnant(dz)
+                out.append((reg.temp['coolant_byp'] + step).ravel())
+            return np.concatenate([np.asarray(o, dtype=float).ravel() for o in out])
+        x0 = np.ones(nc + nb + nd_ * ndc) * T0
+        y0, A = affine_weights(U, x0, nc + nb)
+    finally:
+        pin.release()
+    return y0, A, (nc, nb, nd_ * ndc)
+
+
 def _has_kw(reg):
     return True
 
@@ -467,6 +505,18 @@ def run_case(c):
                             key = '%s|%s' % (codes[ai] if tag == 'own' else ('sel' if tag == 'selected' else 'reg'),
                                              what.split('(')[1].split(')')[0])
                             info['self_min'][key] = min(info['self_min'].get(key, 9.9), inf['self_min'])
+                        if reg.is_rodded and not adi:
+                            # the update operators on their own: the wall temperatures of the previous level as
+                            # independent inputs.  Only with a non-adiabatic outer wall - DASSH leaves the term of
+                            # an adiabatic wall out of the limit on purpose (that wall follows its coolant)
+                            y0, A, dims = probe_operator(reg, dz, T0, Tp)
+                            inf = judge(dict(c, probe_dz=tag, level='operator'), V, what + '.operator', y0, A, T0)
+                            extra['probes'] += 1
+                            r['states'] += 1
+                            r['transitions'] += A.shape[1] + 1
+                            if 'self_min' in inf:
+                                info['self_min'][key + '|op'] = min(info['self_min'].get(key + '|op', 9.9),
+                                                                    inf['self_min'])
             code = codes[ai]
             extra['limiter_own'][code.split('-')[0] + ('-byp' if code[0] in '67' else '')] = 1
         if rx.core.model is not None:
@@ -531,9 +581,14 @@ def main(run):
     run.rule = ('full product of the stated alphabet (design x ducts/bypass flow x Reynolds level x wall/gap model '
                 'x gap flow fraction x core size x low-flow approximation x axial structure x convection factor '
                 'x coolant); every region of the probed assemblies and the gap are probed at the selected step and '
-                'at their own floored limit; non-trivial = at least one operator probed')
+                'at their own floored limit, the whole region update (walls eliminated through their quasi-steady '
+                'solution) and - with a non-adiabatic outer wall - the coolant update operators on their own (wall '
+                'temperatures of the previous level as independent inputs); non-trivial = at least one operator probed')
     run.assumptions = ['updates are affine for frozen material properties (Material.update pinned during a probe)',
-                       'duct material has constant conductivity in all scenarios']
+                       'duct material has constant conductivity in all scenarios',
+                       'operator-level probe only where DASSH keeps the wall term in the limit (non-adiabatic outer '
+                       'wall); behind an adiabatic wall the term is left out on purpose and only the whole region '
+                       'update is judged']
     cs = cases(run.tier)
     run.check_determinism(run_case, cs[0])
     res = run.explore('probe', cs, run_case, budget_s=600)
